@@ -50,6 +50,10 @@ class CallsMixin:
             r = self.call_idiom(e, n, st, d)
             if r is not None:
                 return r
+        if n == "filter" and len(e.args) == 2 and isinstance(e.args[0], ast.Lambda):
+            return self.filter_list(e.args[0], e.args[1], st, d)
+        if n == "map" and len(e.args) == 2 and isinstance(e.args[0], ast.Lambda):
+            return self.comprehension_map(e.args[0], e.args[1], st, d)
         if n in st.env and st.env[n] is not None and st.env[n].ty[0] == "func":
             out = []
             for s1, pos, kw in self.eval_args(e, st, d):
@@ -241,31 +245,34 @@ class CallsMixin:
 
     # ------------------------------------------------------------------ sums / extremes over lists (spec folds)
     def sum_list(self, st, lst):
-        """sum(xs): uninterpreted fold with the defining facts a proof can unfold; booleans count"""
+        """sum(xs). Numbers: the canonical prefix-sum fold sum_real/sum_int(elements, len) with its defining equations.
+        Booleans (counting idiom sum([c(x) for x in xs])): a fold plus the counting lemma  count > 0 <=> exists"""
         ety = strip_opt(lst.ty[1])
+        if lst.ty[1][0] == "opt":
+            raise Unsupported("sum over a list of Optional values")
         n = st.length(lst.term, lst.ty[1])
-        if ety[0] in ("int", "bool"):
-            f = z3.Function("sum_int", REF, z3.IntSort(), z3.IntSort())       # sum_int(list, k) = sum of first k elements (in this heap state)
-            res = z3.Const(fresh_name("sum"), z3.IntSort())
-        else:
-            f = z3.Function("sum_real", REF, z3.IntSort(), z3.RealSort())
-            res = z3.Const(fresh_name("sum"), z3.RealSort())
         el = st.elems(lst.term, lst.ty[1])
-        # the fold is tied to the current element array through a fresh function symbol, so later mutations are not confused
-        fold = z3.Function(fresh_name("fold"), z3.IntSort(), res.sort())
+        if ety[0] in ("int", "real"):
+            fn = SUM_REAL if ety[0] == "real" else SUM_INT
+            for ax in sum_axioms(el, fn):
+                st.assume(ax)
+            st.assume(n >= 0)
+            v = V(("real",) if ety[0] == "real" else ("int",), fn(el, n))
+            v.py = ("sum", lst)
+            return v
+        if ety[0] != "bool":
+            raise Unsupported(f"sum over {lst.ty}")
+        res = z3.Const(fresh_name("count"), z3.IntSort())
+        fold = z3.Function(fresh_name("fold"), z3.IntSort(), z3.IntSort())
         i = z3.Int(fresh_name("i_sum"))
-        elt = z3.Select(el, i)
-        if ety[0] == "bool":
-            elt = z3.If(elt, 1, 0)
         st.assume(fold(0) == 0)
-        st.assume(z3.ForAll([i], z3.Implies(z3.And(0 <= i, i < n), fold(i + 1) == fold(i) + elt)))
+        st.assume(z3.ForAll([i], z3.Implies(z3.And(0 <= i, i < n), fold(i + 1) == fold(i) + z3.If(z3.Select(el, i), 1, 0))))
         st.assume(res == fold(n))
-        if ety[0] == "bool":
-            st.assume(z3.ForAll([i], z3.Implies(z3.And(0 <= i, i <= n), z3.And(fold(i) >= 0, fold(i) <= i))))
-            # counting lemma instance (exists <=> count > 0)
-            st.assume((res > 0) == z3.Exists([i], z3.And(0 <= i, i < n, z3.Select(el, i))))
-        v = V(("int",) if ety[0] in ("int", "bool") else ("real",), res)
-        v.py = ("sum", lst, fold)
+        st.assume(z3.ForAll([i], z3.Implies(z3.And(0 <= i, i <= n), z3.And(fold(i) >= 0, fold(i) <= i))))
+        st.assume((res > 0) == z3.Exists([i], z3.And(0 <= i, i < n, z3.Select(el, i))))     # counting lemma (induction on the list, trusted)
+        self.used_assumptions.add("counting lemma: sum([c(x) for x in xs]) > 0 <=> some element satisfies c")
+        v = V(("int",), res)
+        v.py = ("count", lst, fold)
         return v
 
     def sum_lists(self, st, lists, start):
